@@ -3,7 +3,7 @@
     what the implementation returned.  [*_mismatch]: model vs implementation.
     [*_violates]: the property acceptor rejects what the implementation did. *)
 From Coq Require Import Uint63.
-From WM Require Import Base.Prelude Message.Model Value.Model Value.Codec Value.Json Value.Reuse.
+From WM Require Import Base.Prelude Message.Model Value.Model Value.Codec Value.Json Value.Reuse Value.Scan Value.Sorted Value.JsonInt.
 
 (** long byte strings arrive packed, 7 bytes per primitive 63-bit integer (little endian), the
     last word holding [tail] bytes: one cheap token per 7 bytes for Coq's parser.  Only the
@@ -273,12 +273,26 @@ Record jw_case := JwC {
 }.
 Definition unframe_tbl (c : jw_case) (b : list N) : option (list (list N * list N)) :=
   match assoc bytes_eqb (jw_frames c) b with Some r => r | None => None end.
+(** round "proofs 2": the Gallina scanner [unframe_std] answers first; only where it declines (numbers,
+    arrays, deeper nesting: outside the shapes it is proved on) the harness' splitter is consulted —
+    and wherever both answer they must agree; on what wrapMessageInEnvelope wrote it must answer *)
+Definition members_eqb (x y : list (list N * list N)) : bool :=
+  list_eqb (fun a b => bytes_eqb (fst a) (fst b) && bytes_eqb (snd a) (snd b)) x y.
+Definition unframe_mix (c : jw_case) (b : list N) : option (list (list N * list N)) :=
+  match unframe_std b with Some ms => Some ms | None => unframe_tbl c b end.
+Definition frames_agree (c : jw_case) : bool :=
+  forallb (fun f => match unframe_std (fst f) with
+                    | Some ms => option_eqb members_eqb (snd f) (Some ms)
+                    | None => true
+                    end) (jw_frames c).
 Definition jw_mismatch (c : jw_case) : bool :=
   (match jw_wrap c with
-   | Some (d, m) => negb (option_eqb bytes_eqb (jenc_env (env_of d m)) (jw_p c))
+   | Some (d, m) => negb (option_eqb bytes_eqb (jenc_sorted (env_of d m)) (jw_p c))   (* metadata arrives UNsorted; the model sorts as Go does *)
+                    || negb (res_eqb pair_eqb (unwrap (jdec_env unframe_std) (Msg [] (jw_p c) (Some []))) (jw_got c))
    | None => false
    end)
-  || negb (res_eqb pair_eqb (unwrap (jdec_env (unframe_tbl c)) (Msg [] (jw_p c) (Some []))) (jw_got c)).
+  || negb (frames_agree c)
+  || negb (res_eqb pair_eqb (unwrap (jdec_env (unframe_mix c)) (Msg [] (jw_p c) (Some []))) (jw_got c)).
 Definition jw_violates (c : jw_case) : bool :=
   match jw_wrap c with
   | Some (d, m) => jw_valid c && negb (envelope_rt_ok d m (jw_got c))
@@ -354,6 +368,12 @@ Definition tg_mismatches (cs : list tg_case) := positions (map tg_mismatch cs).
 Definition tg_violations (cs : list tg_case) := positions (map tg_violates cs).
 Definition tg_law_failures (cs : list tg_case) :=
   positions (map (fun c => match t_v c with Some _ => negb (tg_laws c) | None => false end) cs).
+
+(** integers as JSON text against json.Marshal(int64) / json.Unmarshal(.., &int64) *)
+Record ji_case := JiC { i_z : Z; i_enc : list N; i_in : list N; i_dec : option Z }.
+Definition ji_mismatch (c : ji_case) : bool :=
+  negb (bytes_eqb (enc_int (i_z c)) (i_enc c) && option_eqb Z.eqb (dec_int (i_in c)) (i_dec c)).
+Definition ji_mismatches (cs : list ji_case) := positions (map ji_mismatch cs).
 
 Definition js_mismatches (cs : list js_case) := positions (map js_mismatch cs).
 Definition b64_mismatches (cs : list b64_case) := positions (map b64_mismatch cs).
